@@ -343,6 +343,18 @@ class _MonkeyDomain(DefaultDomain):
     def constant(self, node):
         return ("const", node.value)
 
+    def truth(self, value):
+        if isinstance(value, tuple) and len(value) == 2 and value[0] == "const" and not isinstance(value[1], str):
+            return "T" if value[1] else "F"
+        if isinstance(value, tuple) and len(value) == 2 and value[0] == "const":
+            return "T" if value[1] else "F"
+        return super().truth(value)
+
+    def is_none(self, value):
+        if isinstance(value, tuple) and len(value) == 2 and value[0] == "const":
+            return "T" if value[1] is None else "F"
+        return super().is_none(value)
+
 
 def check_monkey_patcher(ctx):
     mp_cls = ctx.classes.get(MONKEY, "MonkeyPatcher")
